@@ -458,6 +458,7 @@ impl Connection {
 
         loop {
             let data = self.read_message().await?;
+            self.fragment_assembler.cleanup_expired();
 
             if data.is_empty() {
                 trace!("Received tick (heartbeat), continuing...");
